@@ -584,6 +584,7 @@ class BattSched(Scheduler):
 
 
 class C15Spec(c01.C01Spec):
+    churn_share = 0
     prop = PROP
     invariants = INVARIANTS
 
